@@ -694,6 +694,8 @@ func (c *Ctx) chunkDataOwned() {
 							}
 							if hasOrigin(recv, func(o string) bool { return strings.HasPrefix(o, "field:") || strings.HasPrefix(o, "global:") }) || func() bool { _, isFA := recv.(*ssa.FieldAddr); return isFA }() {
 								why = "the bytes of a buffer kept in " + strings.Join(origins(recv), ",") + " (" + lockKey(recv) + ")"
+							} else if hasOrigin(recv, func(o string) bool { return strings.Contains(o, "sync.Pool).Get") }) {
+								why = "the bytes of a buffer taken from a sync.Pool (and put back when the function returns)"
 							} else {
 								continue
 							}
@@ -713,5 +715,283 @@ func (c *Ctx) chunkDataOwned() {
 	}
 	if n < 6 {
 		c.bad("chunk-data", 0, "only %d chunk constructions found", n)
+	}
+}
+
+// headerBeforeBody: net/http sends the status line with the first byte of the body: a
+// WriteHeader (or http.Error) that is executed after something was written to the same
+// ResponseWriter is ignored and the client sees 200 - an upstream failure answered with "200 +
+// error text" makes the remote client report success.  Path rule: every function that holds a
+// ResponseWriter is explored with the repository functions it hands the writer to inlined (so
+// that "the helper wrote an error page" and "the helper returned an error" stay correlated); on
+// no path does a status call follow a body write.
+func (c *Ctx) headerBeforeBody() {
+	isRW := func(v ssa.Value) bool {
+		for d := 0; d < 4; d++ {
+			if typeName(v.Type()) == "http.ResponseWriter" {
+				return true
+			}
+			switch x := v.(type) {
+			case *ssa.ChangeInterface:
+				v = x.X
+				continue
+			case *ssa.MakeInterface:
+				v = x.X
+				continue
+			}
+			break
+		}
+		return false
+	}
+	holds := func(fn *ssa.Function) bool {
+		for _, p := range fn.Params {
+			if typeName(p.Type()) == "http.ResponseWriter" {
+				return true
+			}
+		}
+		return false
+	}
+	var fns []*ssa.Function
+	for _, fn := range c.libFuncsAll() {
+		if holds(fn) && len(fn.Blocks) > 0 {
+			fns = append(fns, fn)
+		}
+	}
+	classify := func(ci ssa.CallInstruction) (body, status bool) {
+		cc := ci.Common()
+		if cc.IsInvoke() && isRW(cc.Value) {
+			switch cc.Method.Name() {
+			case "WriteHeader":
+				return false, true
+			case "Write":
+				return true, false
+			}
+			return false, false
+		}
+		passes := false
+		for _, a := range cc.Args {
+			if isRW(a) {
+				passes = true
+			}
+		}
+		if !passes {
+			return false, false
+		}
+		name := callee(ci)
+		if name == "net/http.Error" || name == "net/http.NotFound" || name == "net/http.Redirect" {
+			return true, true
+		}
+		if cal := cc.StaticCallee(); cal != nil && len(cal.Blocks) > 0 && holds(cal) {
+			return false, false // explored in place
+		}
+		// any other callee given the writer (fmt.Fprint*, io.Copy, io.WriteString, WriteTo ...) writes to it
+		return true, false
+	}
+	late := map[ssa.Instruction]string{}
+	seen := map[ssa.Instruction]bool{}
+	var order []ssa.Instruction
+	truncated := false
+	for _, fn := range fns {
+		h := &Hooks{MaxVisits: 2}
+		h.Inline = func(st *State, call *ssa.Call) (*ssa.Function, bool) {
+			if cal := call.Call.StaticCallee(); cal != nil && len(cal.Blocks) > 0 && holds(cal) && !call.Call.IsInvoke() {
+				for _, a := range call.Call.Args {
+					if isRW(a) {
+						return cal, false
+					}
+				}
+			}
+			return nil, false
+		}
+		h.Call = func(st *State, call *ssa.Call) map[int]Val {
+			body, status := classify(call)
+			if status {
+				if !seen[call] {
+					seen[call] = true
+					order = append(order, call)
+				}
+				if st.Has("body") && late[call] == "" {
+					for _, e := range st.Events {
+						if e.Kind == "body" {
+							late[call] = e.Arg
+							break
+						}
+					}
+				}
+			}
+			if body {
+				st.Emit("body", c.pos(call.Pos()), call)
+			}
+			return nil
+		}
+		Explore(fn, fn.Blocks[0], 0, nil, NewState(), h)
+		c.paths += h.Paths
+		if h.Truncated {
+			truncated = true
+		}
+	}
+	for _, ins := range order {
+		key := fmt.Sprintf("%s:status@%s", fnKey(ins.Parent()), c.pos(ins.Pos()))
+		if at := late[ins]; at != "" {
+			c.bad(key, ins.Pos(), "the status is set after the response body was started at %s: net/http has already sent 200, the client takes the failure for success", at)
+		} else {
+			c.ok(key, ins.Pos(), "no body write precedes this status on any path")
+		}
+	}
+	if truncated {
+		c.bad("header-before-body", token.NoPos, "path exploration truncated")
+	}
+	if len(order) == 0 {
+		c.bad("header-before-body", token.NoPos, "no status call found in the HTTP handlers")
+	}
+}
+
+// workersStarted: the worker pools are fed through an unbuffered channel after the workers have
+// been started by a counting loop "for i := 0; i < n; i++ { g.Go(worker) }".  With n >= 1 the
+// loop must start n workers: a loop that begins at 1 (or ends one early) starts none for n == 1
+// and the feeder blocks for ever.  For every counting loop whose body starts a goroutine:
+// (start, comparison) is (0, <) or (1, <=).
+func (c *Ctx) workersStarted() {
+	n := 0
+	for _, fn := range c.libFuncsAll() {
+		for _, hb := range fn.Blocks {
+			iff := lastIf(hb)
+			if iff == nil {
+				continue
+			}
+			cm, truth, ok := cmpOf(iff.Cond)
+			if !ok || !truth {
+				continue
+			}
+			op, cnt, bound := cm.op, cm.x, cm.y
+			if _, isPhiSide := counterPhi(cm.y); isPhiSide {
+				op, cnt, bound = mirrorOp(op), cm.y, cm.x
+			}
+			phi, incremented := counterPhi(cnt)
+			if phi == nil || (op != token.LSS && op != token.LEQ && op != token.NEQ) {
+				continue
+			}
+			if _, isConst := bound.(*ssa.Const); isConst {
+				continue // a fixed number of goroutines, not a worker count
+			}
+			start, okS := int64(0), false
+			inc := false
+			for _, e := range phi.Edges {
+				if k, ok := e.(*ssa.Const); ok && k.Value != nil {
+					start, okS = constInt64(k), true
+				} else if bo, ok := e.(*ssa.BinOp); ok && bo.Op == token.ADD && bo.X == ssa.Value(phi) {
+					if k, ok := bo.Y.(*ssa.Const); ok && constInt64(k) == 1 {
+						inc = true
+					}
+				}
+			}
+			if !okS || !inc {
+				continue
+			}
+			if incremented {
+				start++ // "for range n": the incremented counter is what is compared
+			}
+			// the loop body starts a goroutine
+			body := hb.Succs[0]
+			region := reachableFrom(body, map[edge]bool{{hb, hb.Succs[1]}: true})
+			var starter ssa.Instruction
+			for b := range region {
+				if !reachableFrom(b, nil)[hb] {
+					continue
+				}
+				for _, ins := range b.Instrs {
+					switch x := ins.(type) {
+					case *ssa.Go:
+						starter = x
+					case *ssa.Call:
+						if strings.HasSuffix(callee(x), "errgroup.Group).Go") {
+							starter = x
+						}
+					}
+				}
+			}
+			if starter == nil {
+				continue
+			}
+			n++
+			key := fmt.Sprintf("%s:worker-loop@%s", fnKey(fn), c.pos(starter.Pos()))
+			okL := (start == 0 && (op == token.LSS || op == token.NEQ)) || (start == 1 && op == token.LEQ)
+			c.verdict(okL, key, starter.Pos(), "the loop starts one goroutine per unit of its bound",
+				fmt.Sprintf("the loop that starts the workers runs from %d with %s: for a worker count of 1 it starts %s, and whoever feeds the workers afterwards blocks for ever", start, op, map[bool]string{true: "no worker", false: "a different number of workers than asked for"}[start >= 1 && op == token.LSS]))
+		}
+	}
+	if n == 0 {
+		c.bad("workers-started", token.NoPos, "no worker-starting loop found")
+	}
+}
+
+// counterPhi: v is a loop counter phi, or its increment (incremented == true).
+func counterPhi(v ssa.Value) (phi *ssa.Phi, incremented bool) {
+	switch x := v.(type) {
+	case *ssa.Phi:
+		return x, false
+	case *ssa.BinOp:
+		if p, ok := x.X.(*ssa.Phi); ok && x.Op == token.ADD {
+			if k, ok := x.Y.(*ssa.Const); ok && constInt64(k) == 1 {
+				return p, true
+			}
+		}
+	}
+	return nil, false
+}
+
+// deferredErrorArgs: "defer f(err)" hands f the value err has when the defer statement runs.  If
+// err is assigned afterwards (the usual "err = work()" below it), f never sees the outcome -
+// publishing, logging or recording a nil error for a failed operation.  No deferred call in the
+// analysed packages takes an error variable that is stored to after the defer statement.
+func (c *Ctx) deferredErrorArgs() {
+	n, bad := 0, 0
+	for _, fn := range c.Funcs {
+		if len(fn.Blocks) == 0 {
+			continue
+		}
+		instrs(fn, func(b *ssa.BasicBlock, i int, ins ssa.Instruction) {
+			d, ok := ins.(*ssa.Defer)
+			if !ok || ins.Parent() != fn {
+				return
+			}
+			n++
+			for _, a := range d.Call.Args {
+				if !isErrorType(a.Type()) {
+					continue
+				}
+				ld, ok := a.(*ssa.UnOp)
+				if !ok || ld.Op != token.MUL {
+					continue
+				}
+				cell, ok := ld.X.(*ssa.Alloc)
+				if !ok {
+					continue
+				}
+				for _, st := range storesTo(cell) {
+					if st.Parent() != fn {
+						continue
+					}
+					later := false
+					if st.Block() == b {
+						for j, x := range b.Instrs {
+							if x == ssa.Instruction(st) && j > i {
+								later = true
+							}
+						}
+					} else if reachableFrom(b, nil)[st.Block()] {
+						later = true
+					}
+					if later {
+						bad++
+						c.bad(fmt.Sprintf("%s:defer-%s", fnKey(fn), callee(d)), d.Pos(), "the deferred call takes the error variable %s by value here, but %s is assigned later at %s: the deferred call sees the old value (nil), not the outcome", cell.Comment, cell.Comment, c.pos(st.Pos()))
+						return
+					}
+				}
+			}
+		})
+	}
+	if bad == 0 {
+		c.ok("deferred-error-args", token.NoPos, "%d defer statement(s); none takes an error variable that is assigned after it", n)
 	}
 }
